@@ -12,6 +12,7 @@ package super
 //@   props C15
 //@   requires d.tag != 0
 //@   ensures [G1-fields] fresh(result) && superInv(result) @C15 @C04
+//@   ensures [G1-disk] result.Disk.tag != 0 @C15
 //@   ensures [G1-starts] result.BitmapBlockStart() == 513 && result.BitmapInodeStart() == 514 + dsksize/32768 && result.InodeStart() == 515 + dsksize/32768 && result.DataStart() == 1539 + dsksize/32768 @C15
 //@   ensures [G1-ninode] result.NInode() == 32768 && result.NInode() == result.NInodeBitmap * 32768 @C15
 //@   ensures [G1-covers] acceptedSize(dsksize) ==> result.NBlockBitmap * 32768 > dsksize && result.MaxBnum() == dsksize @C15
